@@ -335,3 +335,35 @@ func leafText(l string) string {
 	}
 	return " (" + l + ")"
 }
+
+// StatusOfCall resolves the cache status applied by a call of the status-applying method: (value, legacy, ok).
+// The receiver is a load of a package-level CacheStatus variable whose fields are set in the package initialiser,
+// or a composite literal with constant fields.
+func (an *Analysis) StatusOfCall(c *ssa.CallCommon) (string, string, bool) {
+	if c == nil || len(c.Args) == 0 {
+		return "", "", false
+	}
+	recv := c.Args[0]
+	var vals [2]string
+	var got [2]bool
+	for i := 0; i < 2; i++ {
+		n := 0
+		an.P.TraceBackPath(recv, []int{i}, TraceOpts{NoParams: true}, func(v ssa.Value, path []int) bool {
+			if k, ok := v.(*ssa.Const); ok && len(path) == 0 {
+				if s, ok := constStr(k); ok {
+					if n > 0 && vals[i] != s {
+						got[i] = false
+						vals[i] = "<ambiguous>"
+						n++
+						return true
+					}
+					vals[i] = s
+					got[i] = true
+					n++
+				}
+			}
+			return true
+		})
+	}
+	return vals[0], vals[1], got[0]
+}
